@@ -99,4 +99,69 @@ Proof.
   destruct (seats_left A cfg s2 <? nlen (hopefuls A s2)); [|exact H3].
   rewrite (cands_log A cfg). cbn [cands set_surplus]. rewrite stl_set_vote, stl_for_ballots_plain. exact H3.
 Qed.
+
+(* ================= "where a rule transfers one surplus at a time, the one transferred first is the largest" ================= *)
+Lemma fold_max_raw (l : list cand) (x : T A) :
+  let m := fold_left (fun m y => if gtv A (cvote y) m then cvote y else m) l x in
+  (m = x \/ exists c, In c l /\ m = cvote c) /\ R x <= R m /\ (forall c, In c l -> R (cvote c) <= R m).
+Proof.
+  revert x. induction l as [|y l IH]; intros x; cbn [fold_left].
+  - split; [left; reflexivity|]. split; [lia|]. intros c [].
+  - specialize (IH (if gtv A (cvote y) x then cvote y else x)). cbv zeta in *.
+    destruct IH as (Hin & Hle & Hall). rewrite (r_gtv_exact A S ZL Hex) in *.
+    destruct (R x <? R (cvote y)) eqn:E.
+    + split; [destruct Hin as [->|(c & Hc & ->)]; right; [exists y; split; [left; reflexivity|reflexivity]|exists c; split; [right; exact Hc|reflexivity]]|].
+      split; [lia|]. intros c [<-|Hc]; [exact Hle|apply Hall; exact Hc].
+    + split; [destruct Hin as [->|(c & Hc & ->)]; [left; reflexivity|right; exists c; split; [right; exact Hc|reflexivity]]|].
+      split; [exact Hle|]. intros c [<-|Hc]; [lia|apply Hall; exact Hc].
+Qed.
+Lemma max_vote_spec (l : list cand) hv : max_vote A l = Some hv -> forall c, In c l -> R (cvote c) <= R hv.
+Proof.
+  unfold max_vote. destruct l as [|c0 l]; [discriminate|]. intros H. injection H as <-.
+  destruct (fold_max_raw l (cvote c0)) as (_ & Hle & Hall). cbv zeta in *. intros c [<-|Hc]; [exact Hle|apply Hall; exact Hc].
+Qed.
+
+Lemma stl_process (f : est -> ballot A -> est * ballot A) sel : (forall s b, stl (cands (fst (f s b))) = stl (cands s)) ->
+  forall bs (s : est) acc, stl (cands (fst (process_ballots A f sel bs s acc))) = stl (cands s).
+Proof.
+  intros Hf. induction bs as [|b t IH]; intros s acc; cbn [process_ballots]; [reflexivity|].
+  destruct (crashed s); [reflexivity|]. destruct (sel b); [|apply IH].
+  specialize (Hf s b). destruct (f s b) as [s1 b1]. rewrite IH. exact Hf.
+Qed.
+Lemma stl_for_ballots_gen (f : est -> ballot A -> est * ballot A) sel (s : est) :
+  (forall s b, stl (cands (fst (f s b))) = stl (cands s)) -> stl (cands (for_ballots A f sel s)) = stl (cands s).
+Proof.
+  intros Hf. unfold for_ballots. pose proof (stl_process f sel Hf (ballots s) s []) as H.
+  destruct (process_ballots A f sel (ballots s) s []) as [s1 bs1]. exact H.
+Qed.
+Lemma stl_reweigh keep rew i surp (s : est) b : stl (cands (fst (reweigh_transfer A keep rew i surp s b))) = stl (cands s).
+Proof. unfold reweigh_transfer. destruct (rew _ _ _); [apply stl_transfer|reflexivity]. Qed.
+
+(* [s'] is [s] with the surplus of one pending winner holding the largest tally transferred: only its pending flag changed *)
+Definition transfers_a_largest (s s' : est) : Prop :=
+  exists c, In c (pendings A s) /\ (forall c', In c' (pendings A s) -> R (cvote c') <= R (cvote c)) /\
+            stl (cands s') = stl (upd_cand A (cid c) (fun x => with_st x Elected (Some false)) (cands s)).
+
+Theorem transfer_high_transfers_a_largest bt rew (s : est) : bt_ok A bt -> NoDup (map (@cid A) (cands s)) ->
+  crashed s = false -> crashed (transfer_high_surplus A cfg bt rew s) = false ->
+  transfers_a_largest s (transfer_high_surplus A cfg bt rew s) \/
+  (exists hv, max_vote A (pendings A s) = Some hv /\ snd (bt (filter (fun c => eqv A (cvote c) hv) (pendings A s)) s) = None).
+Proof.
+  intros Hok Hnd Hc Hcf. unfold transfer_high_surplus in *.
+  destruct (max_vote A (pendings A s)) as [hv|] eqn:Em; [|rewrite sticky_set_crash in Hcf; discriminate].
+  cbv zeta in *. set (highs := filter (fun c => eqv A (cvote c) hv) (pendings A s)) in *.
+  destruct (Hok highs s) as (_ & Ec & Hin).
+  destruct (bt highs s) as [s1 [h|]] eqn:Eb; cbn [fst snd] in *; [|right; exists hv; split; [reflexivity|fold highs; rewrite Eb; reflexivity]]. left.
+  destruct (Hin h eq_refl) as (c & Hch & Hid). unfold highs in Hch. apply filter_In in Hch. destruct Hch as [Hp Hv].
+  rewrite (r_eqv_exact A S ZL Hex) in Hv. apply Z.eqb_eq in Hv.
+  destruct (pending_in A s c Hp) as [Hcin Hpend].
+  destruct (unpend_pending A cfg h (Some "Transfer high surplus"%string) s1 c ltac:(rewrite Ec; exact Hnd) ltac:(rewrite Ec; exact Hcin) Hid Hpend) as (Ec2 & _).
+  cbv zeta in Ec2. set (s2 := unpend A cfg h (Some "Transfer high surplus"%string) s1) in *.
+  exists c. split; [exact Hp|]. split; [intros c' Hc'; rewrite Hv; exact (max_vote_spec _ hv Em c' Hc')|].
+  assert (E2: stl (cands s2) = stl (upd_cand A (cid c) (fun x => with_st x Elected (Some false)) (cands s))) by (rewrite Ec2, Ec, Hid; reflexivity).
+  destruct (crashed s2); [exact E2|].
+  match goal with |- context[for_ballots A ?f ?sel s2] => pose proof (stl_for_ballots_gen f sel s2 (fun t b => stl_reweigh _ _ _ _ t b)) as E3; set (s3 := for_ballots A f sel s2) in * end.
+  destruct (crashed s3); [rewrite E3; exact E2|].
+  rewrite (cands_log A cfg), stl_set_vote, E3. exact E2.
+Qed.
 End LE.
